@@ -825,7 +825,7 @@ def generate(ctx):
                              props=c14.rand_props(rng, k), with_structure=False,
                              ids=None if rng.random() < 0.6 else sorted(int(x) for x in rng.choice(9, nph, replace=False)))
             c = c14.finish_case(rng, c, int(rng.integers(64)))
-            if any(f(c) for f in c14.PREDICATES.values()):
+            if any(f(c) for f in (c14.has_unused_phase, c14.pred_extra_prop_name, c14.pred_nan_or_bool_property, c14.pred_single_point)):
                 continue        # inputs on which the WRITER has open findings (C14) say nothing about the reader
             c["orix_layout"] = {"gap": ["  ", "\t", "              "][int(rng.integers(3))], "filler": bool(rng.integers(2)),
                                 "pad": int(rng.integers(0, 3))}
